@@ -660,6 +660,35 @@ def gen_asym_joint(rng):
     return s
 
 
+def big_beam_text(nbars, loaded_every=50):
+    """a continuous beam of nbars spans on rollers, clamped at its start (text only: thousands of bars)"""
+    lines = ["inkfem v1.1", "", "|nodes|", "n0 -> 0 0 { dx dy rz }"]
+    for k in range(1, nbars + 1):
+        lines.append("n%d -> %d 0 { dy }" % (k, 100 * k))
+    lines += ["", "|materials|", "'steel' -> 0.00000785 21000000 8100000 0.3 27500 43000", "", "|sections|", "'ipe' -> 10.3 171 15.92 34.2 5.79", "", "|loads|"]
+    for k in range(0, nbars, loaded_every):
+        lines.append("fy ld b%d 0 -5 1 -5" % k)
+    lines += ["", "|bars|"]
+    for k in range(nbars):
+        lines.append("b%d -> n%d { dx dy rz } n%d { dx dy rz } 'steel' 'ipe'" % (k, k, k + 1))
+    return "\n".join(lines) + "\n"
+
+
+def posts_text(n):
+    """n independent clamped posts, each with a horizontal force at its top (text only)"""
+    lines = ["inkfem v1.1", "", "|nodes|"]
+    for k in range(n):
+        lines.append("f%d -> %d 0 { dx dy rz }" % (k, 50 * k))
+        lines.append("t%d -> %d 300 { }" % (k, 50 * k))
+    lines += ["", "|materials|", "'steel' -> 0.00000785 21000000 8100000 0.3 27500 43000", "", "|sections|", "'ipe' -> 10.3 171 15.92 34.2 5.79", "", "|loads|"]
+    for k in range(n):
+        lines.append("fx gc p%d 1 %d" % (k, 100 + k % 7))
+    lines += ["", "|bars|"]
+    for k in range(n):
+        lines.append("p%d -> f%d { dx dy rz } t%d { dx dy rz } 'steel' 'ipe'" % (k, k, k))
+    return "\n".join(lines) + "\n"
+
+
 def gen_solvable(rng):
     s = _gen_solvable(rng)
     # loads applied exactly on bar ends (they go to the joint / the support): forces and moments,
